@@ -357,6 +357,8 @@ func runC06(c *Ctx) {
 		ruleDataIndex(c, p, "C06.data-index")
 		ruleCountCases(c, p, "C06.count")
 		ruleResliceUp(c, p, "C06.reslice-up")
+		ruleFrameIndex(c, p, "C06.frame-index")
+		ruleInferNoSharedState(c, p, "C06.shared-state")
 		ruleWireSlice(c, p, "C06.wire-slice")
 		c.R.Rule("C06.errors", "E6 (as C07.errors): every read error on the decode side reaches only failure exits - a swallowed error turns hostile input into a silently wrong (internally inconsistent) result")
 		nE := runErrDisc(c, p, p.Funcs(), errDiscOpts{Rule: "C06.errors", Class: readerClass(p), Exempt: isDoReceiverPacket})
@@ -2817,4 +2819,84 @@ func fromRowsOnly(v ssa.Value, rows ssa.Value) bool {
 		return ok && bi.Name() == "len"
 	}, false)
 	return !hasLen
+}
+
+// ---- C06.frame-index: a decompressed frame can be empty
+func ruleFrameIndex(c *Ctx, p *core.Program, rule string) {
+	c.R.Rule(rule, "in the methods of compress.Reader an element of the data buffer is indexed (data[pos]) only on a path whose last step before it is the edge of a comparison on which pos < len(data) - in particular not straight after readBlock: a checksum-correct frame may decompress to zero bytes (Writer.Compress produces one for an empty payload), Read tolerates that because copy() copies nothing, an index does not (index out of range [0] with length 0); no such index exists today")
+	cfg := p.Cfg.Name
+	n, nf := 0, 0
+	for _, fn := range p.Funcs() {
+		rn := core.RecvNamed2(fn)
+		if rn == nil || rn.Obj().Name() != "Reader" || pkgOf(fn) == nil || pkgOf(fn).Path() != core.PkgCompress || fn.Blocks == nil {
+			continue
+		}
+		nf++
+		inRange := append(core.CondEdges(fn, true, func(cond ssa.Value) (bool, bool) {
+			bo, ok := cond.(*ssa.BinOp)
+			if !ok {
+				return false, false
+			}
+			isLen := func(v ssa.Value) bool {
+				cl, ok := stripConv(v).(*ssa.Call)
+				if !ok {
+					return false
+				}
+				bi, ok := cl.Call.Value.(*ssa.Builtin)
+				return ok && bi.Name() == "len" && readerField(cl.Call.Args[0]) == "data"
+			}
+			isPos := func(v ssa.Value) bool { return readerField(stripConv(v)) == "pos" }
+			switch {
+			case isPos(bo.X) && isLen(bo.Y):
+				switch bo.Op {
+				case token.LSS:
+					return true, true
+				case token.GEQ:
+					return false, true
+				}
+			case isLen(bo.X) && isPos(bo.Y):
+				switch bo.Op {
+				case token.GTR:
+					return true, true
+				case token.LEQ:
+					return false, true
+				}
+			}
+			return false, false
+		}))
+		for _, b := range fn.Blocks {
+			for _, in := range b.Instrs {
+				ia, ok := in.(*ssa.IndexAddr)
+				if !ok || readerField(ia.X) != "data" {
+					continue
+				}
+				if _, isC := core.ConstInt(ia.Index); isC {
+					continue
+				}
+				n++
+				key := core.FuncName(fn) + sprintf("/index#%d", n)
+				// reachable from the entry or from a refill without crossing an in-range edge afterwards?
+				starts := []core.Point{core.Entry(fn)}
+				for _, call := range core.FindCalls(fn, func(f *types.Func) bool { return core.IsMethod(f, core.PkgCompress, "Reader", "readBlock") }) {
+					starts = append(starts, core.PointOf(call.(ssa.Instruction)))
+				}
+				bad := false
+				for _, st := range starts {
+					if w := core.ReachAvoiding(st, func(x ssa.Instruction) bool { return x == ssa.Instruction(ia) }, nil, core.WithoutEdges(inRange)); len(w) > 0 {
+						bad = true
+						c.R.Bad(rule, key, cfg, p.Pos(ia.Pos()), "data[pos] can be evaluated without pos < len(data) having been established after the last refill: an empty frame makes it panic", p.TrailString(w[0])...)
+						break
+					}
+				}
+				if !bad {
+					c.R.Ok(rule, key, cfg, p.Pos(ia.Pos()), "index behind pos < len(data)")
+				}
+			}
+		}
+	}
+	if n == 0 {
+		c.R.Ok(rule, "compress.Reader", cfg, "", sprintf("%d methods examined, none indexes the data buffer", nf)).Trivial = true
+	}
+	c.R.Count("methods of compress.Reader", nf)
+	c.R.Floor(rule, cfg, nf, 2)
 }
